@@ -36,8 +36,8 @@ CHECKS = {
    note='Trusted: Verus/Z3, Kani/CBMC; the bitflags model of prelude/bitflags_model.rs.tmpl (constants themselves are extracted; semantics cross-checked by Kani); flags() also reports address bit 12 as PAT_HUGE_PAGE, which is outside the property\'s flag domain.'),
  'C11': dict(engine=BOTH, cat='proof',
    tech='contract-based deductive verification: Verus loop invariant (ghost request log tiles the range) on the real InvlpgbFlushBuilder::flush; Kani event-log postconditions for tlb.rs via the abstract machine; token clause asserted in the mapper step harnesses',
-   text='tlb::flush, flush_all, flush_pcid (all kinds, symbolic PCID/address), flush_broadcast register encoding and MapperFlush/MapperFlushAll are verified by Kani against the instruction event log (exactly one invlpg / invpcid descriptor / cr3 reload with the current value). The broadcast builder\'s chunking loop is proved unboundedly by Verus: every request <= min(max, 65535) pages, no lower-half request extends past 2^47, and the requests tile [start, end) contiguously; a bounded Kani twin over ranges <= 8 pages cross-checks it. "Token names the page" is an obligation of every mapper step harness.',
-   note='Trusted: ISA table of prelude/verif_hw.rs (invlpg/invpcid/invlpgb/mov cr3 semantics), asm template text beyond arm selection; flush_broadcast is a contracted callee in the Verus proof (its encoding is proved by Kani); a request with count c is read as covering max(c,1) pages, the code\'s own reading (the AMD manual counts additional pages: an observation, not a finding). One genuine defect found and fixed (flush_all dropped the PCID bits).'),
+   text='tlb::flush, flush_all, flush_pcid (all kinds, symbolic PCID/address), flush_broadcast register encoding and MapperFlush/MapperFlushAll are verified by Kani against the instruction event log (exactly one invlpg / invpcid descriptor / cr3 reload with the current value). The broadcast builder\'s chunking loop is proved unboundedly by Verus: every request <= min(max, 65535) pages, no lower-half request extends past 2^47, and the requests tile [start, end) contiguously; a bounded Kani twin over ranges <= 8 pages cross-checks it. "Token names the page" is an obligation of every mapper step harness that can succeed, together with "the page of the argument is the page whose leaf changed as dictated" and "no other address changed" (the same clauses C01 uses), so a token that names a page that did not change is reported. Invlpgb::new: with core::arch::x86_64::__cpuid stubbed, Some iff CPUID Fn8000_0008 EBX[3], per-request maximum == EDX[15:0], nested support == EBX[21], ASID count == Fn8000_000A EBX, no other leaf, panics outside ring 0.',
+   note='Trusted: ISA table of prelude/verif_hw.rs (invlpg/invpcid/invlpgb/mov cr3 semantics), asm template text beyond arm selection; flush_broadcast is a contracted callee in the Verus proof (its encoding is proved by Kani); a request with count c is read as covering max(c,1) pages, the code\'s own reading (the AMD manual counts additional pages: an observation, not a finding). One genuine defect found and fixed (flush_all dropped the PCID bits). The mapper step clauses are bounded as in C01 and listed under bounded_obligations.'),
  'C12': dict(engine=E1, cat='proof',
    tech='contract-based verification with Kani: full-domain harnesses on the real IDT types with an independent gate decoder and an independent (field, vector) table',
    text='For symbolic vectors and (lo, hi) range pairs: entry v sits at byte 16*v through named field, index and slice; indexing panics exactly on the reserved / differently-typed vectors; slices refuse starts below 32; set_handler_addr encodes offset, current CS, present, interrupt gate, DPL 0, IST 0 per the architectural 16-byte format; each option setter changes only its field (frame condition on the remaining bits); missing()/reset()/new() are non-present gates with the must-be-one bits; load passes the table address and limit 4095 to lidt.',
